@@ -10,6 +10,7 @@ Exceptions      -> {"exc": [class names of the MRO]}
 No JSON null / float ever appears in the output (TLC's JsonDeserialize rejects them) and
 no integer above 2^31-1 (TLC integers are 32 bit): big ints are base-128 limb lists.
 """
+import array
 import types
 import datetime
 import decimal
@@ -108,7 +109,8 @@ def pv(x):
         return {"p": "bytes", "by": list(x)}
     if t is bytearray:
         return {"p": "bytearray", "by": list(x)}
-    if t is list:
+    if t is list or t is array.array:
+        # a typed array is a non-string sequence of ints / floats
         return {"p": "list", "it": [pv(i) for i in x]}
     if t is tuple:
         return {"p": "tuple", "it": [pv(i) for i in x]}
